@@ -321,6 +321,62 @@ def check_programs(run: Run, progs, tbl, formula, me):
                               dict(program=p, statement=d["stmt"]))
 
 
+def type_boundaries(run: Run, tbl, formula):
+    """multipliers and counts of every numeric type mean the same number; a multiplier that is not a number
+    (a string, bytes, None, a list) is refused with TypeError and no formula is returned"""
+    import numpy as np
+    from fractions import Fraction as Fr
+    rng = run.rng
+    for i in range(60):
+        s = gens.gen_struct(rng, maxdepth=2)
+        f = formula(pyside.struct_objs(s, tbl))
+        base = {pyside.key_of(a): c for a, c in f.atoms.items()}
+        n = rng.choice([2, 3, 0.5, 2.5, 7])
+        inp = dict(structure=s, multiplier=n)
+        run.count(key="types" + repr(inp), nontrivial=True, tag="type-boundaries")
+        ref = {k: v * n for k, v in base.items()}
+        for label, m in (("numpy.float64", np.float64(n)), ("numpy.float32", np.float32(n)),
+                         ("numpy.int64", np.int64(n) if n == int(n) else None), ("Fraction", Fr(n)),
+                         ("0-d array", np.array(float(n)))):
+            if m is None:
+                continue
+            try:
+                g = m * f
+                got = {pyside.key_of(a): float(c) for a, c in g.atoms.items()}
+            except Exception as e:  # noqa
+                run.violation("%s multiplier %r is not accepted as a number: %s" % (label, m, type(e).__name__), inp)
+                continue
+            if set(got) != set(ref) or any(not close(got[k], float(ref[k])) for k in ref):
+                run.violation("n*f with a %s multiplier differs from the same number as a Python float" % label, inp)
+        for bad in ("2", "0.5", b"2", None, [2], "x"):
+            try:
+                g = bad * f
+            except TypeError:
+                continue
+            except Exception as e:  # noqa
+                run.violation("n*f with the non-numeric multiplier %r raised %s, not TypeError" % (bad, type(e).__name__), inp)
+                continue
+            # a str/bytes/list times a Formula falls to Formula.__rmul__ – it must refuse
+            run.violation("n*f accepted the non-numeric multiplier %r and returned a formula with structure %r"
+                          % (bad, repr(g.structure)[:60]), inp)
+        # counts given as numpy scalars / 1-element arrays are numbers too, and reading atoms changes nothing
+        k = gens.gen_atom(rng)
+        a = pyside.atom_of(k, tbl)
+        for label, c in (("numpy.float64", np.float64(2.0)), ("numpy.int64", np.int64(3)), ("1-element array", np.array([2.0]))):
+            try:
+                g = formula([(c, a), (1, pyside.atom_of((8, 0, 0), tbl)), (c, a)])
+                first = float(np.ravel(g.atoms[a])[0])
+                second = float(np.ravel(g.atoms[a])[0])
+                struct_count = float(np.ravel(g.structure[0][0])[0])
+            except Exception as e:  # noqa
+                run.violation("a count of type %s is not accepted: %s" % (label, type(e).__name__), inp)
+                continue
+            want = 2 * float(np.ravel(c)[0])
+            if first != want or second != want or struct_count != float(np.ravel(c)[0]):
+                run.violation("a repeated atom with %s counts: atoms gives %r then %r (expected %r); the stored count is now %r"
+                              % (label, first, second, want, struct_count), inp)
+
+
 def run(run: Run) -> int:
     pt = import_repo()
     from periodictable.formulas import formula
@@ -331,6 +387,7 @@ def run(run: Run) -> int:
     progs = [gen_program(run.rng) for _ in range(n)]
     for i in range(0, n, 2000):
         check_programs(run, progs[i:i + 2000], tbl, formula, me)
+    type_boundaries(run, tbl, formula)
     # replay consistency: the first programs once more at the end (nothing may depend on what ran in between)
     check_programs(run, progs[:150], tbl, formula, me)
     return run.finish(RULE, assumptions=[
